@@ -21,6 +21,7 @@ def definer(c, N, V):
         "defn": f"(defn {N} [] {V})",
         "defclass": f"(defclass {N} [] (setv v {V}))",
         "import-as": f"(import hyv_const [c{V} :as {N}])",
+        "import-module-as": f"(import hyv_const{V} :as {N})",
         "for": f"(for [{N} [{V}]])",
         "with-as": f"(with [{N} (cm {V})])",
         "setx": f"(setx {N} {V})",
@@ -54,6 +55,7 @@ def user(c, N):
         "dot-form": f"(setv hyv-out (. o {N}))",
         "method-call": f"(setv hyv-out (.{N} o))",
         "dotted-call": f"(setv hyv-out (o.{N}))",
+        "dot-form-call": f"(setv hyv-out (. o ({N})))",
         "getattr": f'(setv hyv-out (getattr o (hy.mangle "{N}")))',
     }[c]
 
@@ -85,6 +87,8 @@ def recover(x):
         return int(x)
     if isinstance(x, type) and hasattr(x, "v"):
         return x.v
+    if isinstance(x, types.ModuleType):
+        return x.hyv_module_value
     if callable(x):
         return recover(x())
     return x
@@ -103,6 +107,10 @@ def run_program(text_):
         m = types.ModuleType("hyv_const")
         m.c1, m.c2 = 1, 2
         sys.modules["hyv_const"] = m
+        for v in (1, 2):
+            mv = types.ModuleType(f"hyv_const{v}")
+            mv.hyv_module_value = v
+            sys.modules[f"hyv_const{v}"] = mv
     mod = types.ModuleType("hyv_names")
     mod.__dict__.update(o=Obj(), cm=cm, Val=Val, hy=hy)
     mod.__dict__["hyv_id"] = lambda x: x
@@ -148,7 +156,7 @@ def main(run):
                 run.work, workers=16, label="names", timeout=3000)
     if r.violated:
         raise MachineryError(f"HyNames: {r.violated} violated on the specification")
-    run.add_tlc(r, "HyNames: 18 defining constructs x 10 names, optionally a second definition, x 15 using constructs x 10 names; "
+    run.add_tlc(r, "HyNames: 19 defining constructs x 10 names, optionally a second definition, x 16 using constructs x 10 names; "
                    "sameness of names is equality of HyMangle!Mangle")
     rows = r.ex("CASE")
     run.log(f"TLC: {len(rows)} programs")
@@ -194,8 +202,8 @@ def main(run):
         raise MachineryError(f"vacuous: {stats}")
     run.sample({"program": program(rows[len(rows) // 2]), "spec": rows[len(rows) // 2]})
     return run.finish("model_checking",
-                      "18 defining constructs (setv, defn, defclass, import :as, for, with, setx, global, let-free setv, defmacro, "
-                      "parameter, keyword argument, mangled dict key, dotted / (. ) / class-body / method / setattr attributes) x 15 "
+                      "19 defining constructs (setv, defn, defclass, import :as, for, with, setx, global, let-free setv, defmacro, "
+                      "parameter, keyword argument, mangled dict key, dotted / (. ) / class-body / method / setattr attributes) x 16 "
                       "using constructs (read, argument, f-string field, dotted head, global, del, macro call, keyword call, (:k d), "
                       "mangled get, dotted / (. ) / method call / dotted call / getattr) of the same namespace x 10 names each "
                       "(hyphen vs underscore, leading hyphen / underscore, trailing hyphen, illegal characters), with an optional "
